@@ -411,6 +411,11 @@ def owner(tok):
     return tok.split(":", 1)[0]
 
 
+def _idx(evname):
+    """arrival index of an event name 'e<k>'; names of misdelivered completions sort last"""
+    return int(evname[1:]) if evname[1:].isdigit() else 10 ** 6
+
+
 # ----------------------------------------------------------------------------- spec for explore.bfs
 
 
@@ -565,7 +570,7 @@ class Spec:
                 r = ref[i] if i < len(ref) else None
                 if o[0] == "enter":
                     if r is not None and r[0] == "enter":
-                        pre = nl and s.decided is not None and (int(o[1][1:]) < s.decided or int(r[1][1:]) < s.decided)
+                        pre = nl and s.decided is not None and (_idx(o[1]) < s.decided or _idx(r[1]) < s.decided)
                         bad = "prechoice_events_reach_child_in_arrival_order" if pre else "each_event_once_in_order"
                     elif (r is None and ref and ref[-1][0] == "yield") or (r is not None and r[0] in ("sent", "yield", "exit")):
                         bad = "no_new_event_while_waiting"
@@ -583,7 +588,7 @@ class Spec:
                     bad = "reply_reaches_its_own_yield"
                 elif not own_waiting and out_owners and "parent_not_paused_by_child" in verdict:
                     bad = "parent_not_paused_by_child"
-                elif nl and r[0] == "enter" and s.decided is not None and int(r[1][1:]) < s.decided:
+                elif nl and r[0] == "enter" and s.decided is not None and _idx(r[1]) < s.decided:
                     bad = "prechoice_events_reach_child_in_arrival_order"
                 else:
                     bad = "each_event_once_in_order"
